@@ -4,6 +4,7 @@ import ewho
 import ecanon
 import elin
 import eunits
+import eskip
 
 LEVEL = "E-UNITS.pre + E-UNITS + E-LIN on oxidd-reorder"
 
@@ -31,5 +32,10 @@ def run(ctx):
                 "the `element already in place` edge (loop invariant: all earlier positions are final) and swaps "
                 "level views, to_pre and target_order together.")
     esort.run(ctx, F)
+    ctx.explain("E-TABLE.skip: DiagramRules::skipped_cofactor of every kind (override or trait default) is interpreted and must "
+                "yield the cofactors of an edge w.r.t. a variable above its node under the kind's semantics of a skipped level "
+                "(don't-care; zero-suppressed for ZBDDs); level_swap splits children below the lower level through it.")
+    n = eskip.run(ctx, F)
+    ctx.floor("E-TABLE.skip", "interpreted skipped-cofactor cases", n, 20)
     ctx.not_decided = ("that functions are preserved, that the requested order is reached with minimal swaps, "
                        "non-overlap of concurrent swaps (runtime indices)")
